@@ -80,6 +80,61 @@ def abstract(node, S):
     return [mods[k] for k in sorted(mods)]
 
 
+def gen_this_doc(rng, S):
+    """(text, expected multiset of reported names, abstract module) for the THIS. convention: a TYPEDEF_CHARACTERISTIC that is
+    a component of 0..3 TYPEDEF_STRUCTUREs with different component sets, optionally instantiated directly, whose AXIS_DESCRs
+    refer to THIS.<component> through AXIS_PTS_REF and CURVE_AXIS_REF"""
+    inst = {(sid, p): i for i, (sid, h, f, p) in enumerate(P.instances())}
+    pool = ['ax', 'ay', 'az']
+    nstruct = rng.choice([0, 1, 2, 2, 3])
+    structs = []
+    for k in range(nstruct):
+        comps = [c for c in pool if rng.random() < 0.6]
+        structs.append(('ts%d' % k, comps))
+    direct = rng.random() < 0.25
+    refs = []
+    for _ in range(rng.randrange(1, 4)):
+        kind = rng.choice(['AXIS_PTS_REF', 'CURVE_AXIS_REF'])
+        tgt = rng.choice(['THIS.' + rng.choice(pool + ['nowhere']), 'apx', 'gone'])
+        refs.append((kind, tgt))
+    out = [HEAD.rstrip('\n'), '/begin RECORD_LAYOUT rl FNC_VALUES 1 UBYTE ROW_DIR DIRECT AXIS_PTS_X 2 UBYTE INDEX_INCR DIRECT /end RECORD_LAYOUT',
+           '/begin AXIS_PTS apx "" 0x0 NO_INPUT_QUANTITY rl 0 NO_COMPU_METHOD 3 0 255 /end AXIS_PTS',
+           '/begin TYPEDEF_AXIS ta "" NO_INPUT_QUANTITY rl 0 NO_COMPU_METHOD 3 0 255 /end TYPEDEF_AXIS',
+           '/begin TYPEDEF_CHARACTERISTIC tc "" CUBOID rl 0 NO_COMPU_METHOD 0 255']
+    for kind, tgt in refs:
+        axis = 'COM_AXIS' if kind == 'AXIS_PTS_REF' else 'CURVE_AXIS'
+        out.append('  /begin AXIS_DESCR %s NO_INPUT_QUANTITY NO_COMPU_METHOD 3 0 255 %s %s /end AXIS_DESCR' % (axis, kind, tgt))
+    out.append('/end TYPEDEF_CHARACTERISTIC')
+    for name, comps in structs:
+        out.append('/begin TYPEDEF_STRUCTURE %s "" 16' % name)
+        for j, cname in enumerate(comps):
+            out.append('  /begin STRUCTURE_COMPONENT %s ta %d /end STRUCTURE_COMPONENT' % (cname, j))
+        out.append('  /begin STRUCTURE_COMPONENT cu tc 8 /end STRUCTURE_COMPONENT')
+        out.append('/end TYPEDEF_STRUCTURE')
+        if rng.random() < 0.5:
+            out.append('/begin INSTANCE i_%s "" %s 0x100 /end INSTANCE' % (name, name))
+    if direct:
+        out.append('/begin INSTANCE i_direct "" tc 0x200 /end INSTANCE')
+    out.append(TAIL)
+    objects = {'apx'} | {'i_' + n for n, _ in structs if ('/begin INSTANCE i_%s ' % n) in '\n'.join(out)} | ({'i_direct'} if direct else set())
+    expected = collections.Counter()
+    slots = []
+    for kind, tgt in refs:
+        site = inst[('AxisPtsRef.axis_points' if kind == 'AXIS_PTS_REF' else 'CurveAxisRef.curve_axis', 'AxisDescr')]
+        if tgt.startswith('THIS.') and not direct and structs:
+            ok = all(tgt[5:] in comps for _n, comps in structs)
+            slots.append([site, tgt, [1 if ok else 0]])
+            if not ok:
+                expected[tgt[5:]] += 1
+        else:
+            slots.append([site, tgt, []])
+            if tgt not in objects:
+                expected[tgt] += 1
+    defs = [['OBJ', o] for o in sorted(objects)] + [['RL', 'rl'], ['TD', 'ta'], ['TD', 'tc']] + [['TD', n] for n, _ in structs]
+    # the remaining references of the document resolve (record layouts, component types, instance types)
+    return '\n'.join(out), expected, [defs, slots]
+
+
 def names_of(reports):
     return collections.Counter(e[3] for e in R.xref_errors(reports))
 
@@ -124,6 +179,8 @@ def check(tier, seed):
     for j in range(n // 2):     # arbitrary (mostly inconsistent) documents
         node, text, toks = docs.random_doc(rng, rng.choice(['small', 'medium']), layout=docgen.Layout())
         documents.append(('random', node, text))
+    this_docs = [gen_this_doc(rng, S) for _ in range(n // 2)]
+    this_res = R.run_cases('CHECK', [R.check_case(t) for t, e, m in this_docs], binary=impl)
     res = R.run_cases('CHECK', [R.check_case(t) for c, nd, t in documents], binary=impl)
     odd = R.run_cases('CHECK', [R.check_case(t) for t in ODD.values()], binary=impl)
 
@@ -136,6 +193,22 @@ def check(tier, seed):
             lines.append(sx.enc([m[0], m[1]]))
             owner.append(j)
     mismatches = []
+    this_failures = []
+    if model_exe:
+        tout = fw.run_sharded([model_exe], [sx.enc(m) for t, e, m in this_docs])
+    for k, (t, e, m) in enumerate(this_docs):
+        r = this_res[k]
+        if r is None or r[0] != b'OK':
+            this_failures.append((k, 'panic', 'check() on a THIS. document: %s' % (r and sx.pretty(r[:2]))))
+            continue
+        got = names_of(r[1])
+        if got != e:
+            this_failures.append((k, 'this-convention', 'THIS. references: reported %s, missing according to "component of every containing '
+                                  'structure": %s' % (dict(got), dict(e))))
+        if model_exe:
+            mm = sx.pretty(sx.dec(tout[k])) if tout[k] and not tout[k].startswith('DIED') else None
+            if not mm or mm[0] != 'OK' or collections.Counter(mm[1]) != got:
+                mismatches.append((('this', k), dict(collections.Counter(mm[1]) - got) if mm else None, dict(got - collections.Counter(mm[1])) if mm else None))
     if model_exe:
         out = fw.run_sharded([model_exe], lines)
         per_doc = {}
@@ -179,6 +252,8 @@ def check(tier, seed):
             x = R.xref_errors(r[1])
             if cls == 'consistent' and x:
                 failures.append((j, 'false-positive', 'consistent document, reported: %s' % (x[:3],)))
+    for k, cls, why in this_failures:
+        failures.append((('this', k), cls, why))
     for (name, text), r in zip(ODD.items(), odd):
         if r is None or r[0] == b'PANIC':
             failures.append((('odd', name), 'panic', 'panic on structurally odd document %s' % name))
@@ -197,7 +272,7 @@ def check(tier, seed):
                  'hand-written structurally odd documents, and 60 site-instance probes; non-trivial = consistent documents + '
                  'distinct corrupted site instances' % len(ODD)),
         'documents_by_class': dict(classes), 'odd_documents': sorted(ODD),
-        'model_cases': len(lines), 'correspondence_mismatches': len(mismatches),
+        'model_cases': len(lines) + len(this_docs), 'this_convention_documents': len(this_docs), 'correspondence_mismatches': len(mismatches),
         'traces_validated_against_impl': len(set(owner)) - len(mismatches) if model_exe else 0,
         'site_instances_probed': len([k for k in table if table[k]['n']]), 'table_mismatches': len(table_bad),
         'oracle_failures': len(failures),
@@ -223,6 +298,8 @@ def check(tier, seed):
         seen.add(cls)
         if isinstance(j, tuple) and j[0] == 'odd':
             text = ODD[j[1]]
+        elif isinstance(j, tuple) and j[0] == 'this':
+            text = this_docs[j[1]][0]
         elif isinstance(j, tuple):
             rec = [r for r in table_bad if r['instance'] == j[1]][0]
             text = rec['text']
@@ -240,6 +317,9 @@ def check(tier, seed):
             v.violation('model', {'stage': 'C', 'broken': 'model build', 'detail': model_err}, no_input=True)
         elif mismatches or table_bad:
             j = mismatches[0][0] if mismatches else None
+            if isinstance(j, tuple):
+                documents.append(('this', None, this_docs[j[1]][0]))
+                j = len(documents) - 1
             # a mismatch is a property violation when the implementation reports a name the model resolves (false positive)
             # or misses one at a covered site; both are decided by the model, so the document is the failing input
             v.violation('correspondence', {
